@@ -6,7 +6,7 @@
    the polynomial identities over Z and the history theorems are closed under the global context. *)
 From Coq Require Import Reals List ZArith Bool.
 Import ListNotations.
-Require Import MD.Cell.Model MD.Cell.Proofs MD.Cell.ZAlgebra.
+Require Import MD.Cell.Model MD.Cell.Proofs MD.Cell.ZAlgebra MD.Cell.Formats MD.Cell.FormatsProofs.
 Require Import MD.Traj.Model MD.Traj.Proofs MD.Traj.CellHist.
 Open Scope R_scope.
 
@@ -63,12 +63,30 @@ Theorem volume_closed_form : forall la lb lc ca cb cg sg,
 Proof. intros la lb lc ca cb cg sg. exact (volume_squared la lb lc ca cb cg sg). Qed.
 Print Assumptions volume_closed_form.
 
+(* ---- what unitcell_volumes returns (np.linalg.det of the reported row matrix) is positive exactly when the angle triple
+        satisfies the Gram condition of valid_cell_iff_gram_positive, and then it is la lb lc sqrt(gram).
+        _check_valid_unitcell itself only demands lengths and angles both present and non-negative (histories:
+        half_set_cell_needs_part_assignment); a triple with non-positive Gram determinant passes it and gets volume 0 *)
+Theorem volume_positive_iff_gram_positive : forall la lb lc ca cb cg sg,
+  0 < la -> 0 < lb -> 0 < lc -> 0 < sg -> sg * sg + cg * cg = 1 ->
+  let '(va, vb, vc) := to_vectors la lb lc ca cb cg sg in
+  0 < det3 va vb vc <-> 0 < gram ca cb cg.
+Proof. intros la lb lc ca cb cg sg. exact (volume_pos_iff la lb lc ca cb cg sg). Qed.
+Print Assumptions volume_positive_iff_gram_positive.
+
+Theorem volume_is_lengths_times_sqrt_gram : forall la lb lc ca cb cg sg,
+  0 < lb -> 0 < lc -> 0 < sg -> sg * sg + cg * cg = 1 -> 0 <= gram ca cb cg ->
+  let '(va, vb, vc) := to_vectors la lb lc ca cb cg sg in
+  det3 va vb vc = la * lb * lc * sqrt (gram ca cb cg).
+Proof. intros la lb lc ca cb cg sg. exact (volume_formula la lb lc ca cb cg sg). Qed.
+Print Assumptions volume_is_lengths_times_sqrt_gram.
+
 (* ---- reading the vectors back: the stored lengths, and each named angle separately *)
 Theorem roundtrip_lengths_and_named_angles : forall la lb lc ca cb cg sg,
   0 < la -> 0 < lb -> 0 < lc -> 0 < sg -> sg * sg + cg * cg = 1 -> 0 <= radicand lc ca cb cg sg ->
   let '(va, vb, vc) := to_vectors la lb lc ca cb cg sg in
   from_vectors va vb vc = ((la, lb, lc), (ca, cb, cg)).
-Proof. intros la lb lc ca cb cg sg. exact (roundtrip la lb lc ca cb cg sg). Qed.
+Proof. intros la lb lc ca cb cg sg. exact (MD.Cell.Proofs.roundtrip la lb lc ca cb cg sg). Qed.
 Print Assumptions roundtrip_lengths_and_named_angles.
 
 Theorem angle_naming : forall a b c,
@@ -164,6 +182,31 @@ Theorem half_set_cell_witnesses :
    reg_state w 4 = Some (false, false) /\ reg_state w 5 = Some (false, false)).
 Proof. exact half_set_witnesses. Qed.
 Print Assumptions half_set_cell_witnesses.
+
+(* ---- saving and loading: what each writable format carries (table MD.Cell.Formats.format_table, pinned against
+        Trajectory._savers / save_* by MD.Gen.CellFormats on every run).  For every format that has a place for a cell:
+        if the writer accepts the trajectory, the loaded one has a complete per-frame cell exactly when the saved one
+        had; the writers refuse exactly in the two documented situations; the formats without a place for a cell
+        (.xyz, .xyz.gz, .lh5) drop it *)
+Theorem save_load_have_cell_iff : forall k have rect h,
+  k <> NoCell -> roundtrip k have rect = Some h -> h = have.
+Proof. exact roundtrip_iff. Qed.
+Print Assumptions save_load_have_cell_iff.
+
+Theorem save_refuses_exactly : forall k have rect,
+  roundtrip k have rect = None <->
+  (k = RequiresCell /\ have = false) \/ (k = RectilinearOnly /\ have = true /\ rect = false).
+Proof. exact roundtrip_refuses. Qed.
+Print Assumptions save_refuses_exactly.
+
+(* the box-vector formats (.xtc, .trr, .gro) write "no cell" as zeros and rely on the unitcell_vectors setter of the
+   trajectory model when loading *)
+Theorem zero_box_formats_use_the_vectors_setter : forall v w r t m zero w',
+  nth_error (trajs w) r = Some t -> m = nframes t -> (0 < m)%nat ->
+  step v w (OSetVectors r (Some m) zero) = (w', ROk) ->
+  exists t', nth_error (trajs w') r = Some t' /\ have_cell t' = negb zero /\ complete_or_none t' = true.
+Proof. exact load_through_vectors_setter. Qed.
+Print Assumptions zero_box_formats_use_the_vectors_setter.
 
 (* ---- non-vacuity of the hypotheses of the real-number theorems: a cell with three different angles *)
 Example valid_cell_exists :
